@@ -2,8 +2,51 @@ import PttVerif.DriverLoop
 import PttVerif.Model.C13
 open PttVerif PttVerif.C13
 
-/-- ops: fn2aidu <hex28> | aidu2fn <dec> | aidu2aidc <dec> | aidc2aidu <hex8> | toaid <hex28> | toraw <hex> -/
-def stepC13 (_ : Unit) (ws : List String) : Unit × String :=
+/-- configuration a designation history runs under (set by `reset`): USE_AID_URL, URL_PREFIX,
+STR_URL_DISPLAYNAME_BIG5. The codec ops do not read it. -/
+structure Cfg where
+  useAid : Bool
+  pfx : List Nat
+  disp : List Nat
+
+def showResolved : Option (List Nat × List Nat) → String
+  | none => "none"
+  | some (folder, f) => toHex folder ++ "/" ++ toHex f
+
+def showEntry (e : Entry) : String :=
+  toHex e.id ++ " " ++ (if e.deleted then "1" else "0") ++ " " ++ toHex e.filename
+
+/-- decimal token of 1..9 digits. -/
+def natTok (s : String) : Option Nat :=
+  if s.length = 0 ∨ s.length > 9 then none
+  else if s.toList.all Char.isDigit then s.toNat? else none
+
+def byteTok (s : String) : Option Nat := (natTok s).bind fun n => if n < 256 then some n else none
+
+/-- the Brdname array of a board header (`BoardID_t`, IDLEN + 1 bytes); the harness copies the given
+bytes into one, as it copies names into a Filename_t. -/
+def BRDLEN : Nat := 13
+
+/-- pass `codec` — ops: fn2aidu <hex28> | aidu2fn <dec> | aidu2aidc <dec> | aidc2aidu <hex8> | toaid <hex28> | toraw <hex>
+
+pass `designate` — ops: reset <0|1> <prefix-hex> <displayname-hex>
+  actions of the history, acknowledged only (what they did is reported by the observation ops):
+    post <board-hex> <user-hex> <k> | crowd <board-hex> | del <board-hex> <k> | list <board-hex>
+    | xpost <board-hex> <k> <xboard-hex>
+  observations:
+    url <board-hex> <filename-hex28> <line-hex>   => <the line GetWebURL gives for that record> <what the given line resolves to>
+    listid <filename-hex28> <owner0>              => <id> <deleted> <filename>
+    xref <filename-hex28>                         => <the 8 characters a cross-post header prints>
+  pure forms (ptt.GetWebURL / bbs.NewArticleSummaryFromRaw on a constructed header):
+    weburl <board-hex> <filename-hex>             => <url>
+    entry <filename-hex> <owner0>                 => <id> <deleted> <filename> -/
+def stepC13 (st : Option Cfg) (ws : List String) : Option Cfg × String :=
+  match ws with
+  | ["reset", a, p, d] =>
+      match (if a = "0" then some false else if a = "1" then some true else none), parseHex p, parseHex d with
+      | some useAid, some pfx, some disp => (some { useAid, pfx, disp }, "ok")
+      | _, _, _ => (st, "bad-op")
+  | _ =>
   let out := match ws with
     | ["fn2aidu", h] => match parseHex h with
         | some f => toString (fnToAidu f)
@@ -23,7 +66,39 @@ def stepC13 (_ : Unit) (ws : List String) : Unit × String :=
     | ["toraw", h] => match parseHex h with
         | some a => showM toHex (articleIDToRaw a)
         | none => "bad-op"
+    | ["post", b, u, k] => match st, parseHex b, parseHex u, natTok k with
+        | some _, some _, some _, some _ => "ok"
+        | _, _, _, _ => "bad-op"
+    | ["crowd", b] => match st, parseHex b with
+        | some _, some _ => "ok"
+        | _, _ => "bad-op"
+    | ["del", b, k] => match st, parseHex b, natTok k with
+        | some _, some _, some _ => "ok"
+        | _, _, _ => "bad-op"
+    | ["list", b] => match st, parseHex b with
+        | some _, some _ => "ok"
+        | _, _ => "bad-op"
+    | ["xpost", b, k, x] => match st, parseHex b, natTok k, parseHex x with
+        | some _, some _, some _, some _ => "ok"
+        | _, _, _, _ => "bad-op"
+    | ["url", b, f, l] => match st, parseHex b, parseHex f, parseHex l with
+        | some c, some board, some fn, some line =>
+            toHex (urlLine c.disp (webURL c.useAid c.pfx (copyInto BRDLEN board) (copyInto FNLEN fn))) ++ " " ++
+              showM showResolved (resolveLine c.useAid c.disp c.pfx line)
+        | _, _, _, _ => "bad-op"
+    | ["listid", f, o] => match st, parseHex f, byteTok o with
+        | some _, some fn, some owner0 => showEntry (listEntry (copyInto FNLEN fn) owner0)
+        | _, _, _ => "bad-op"
+    | ["weburl", b, f] => match st, parseHex b, parseHex f with
+        | some c, some board, some fn => toHex (webURL c.useAid c.pfx (copyInto BRDLEN board) (copyInto FNLEN fn))
+        | _, _, _ => "bad-op"
+    | ["entry", f, o] => match st, parseHex f, byteTok o with
+        | some _, some fn, some owner0 => showEntry (listEntry (copyInto FNLEN fn) owner0)
+        | _, _, _ => "bad-op"
+    | ["xref", f] => match st, parseHex f with
+        | some _, some fn => toHex (aidcText (copyInto FNLEN fn))
+        | _, _ => "bad-op"
     | _ => "bad-op"
-  ((), out)
+  (st, out)
 
-def main : IO Unit := runHandler { init := (), step := stepC13 }
+def main : IO Unit := runHandler { init := none, step := stepC13 }
